@@ -453,7 +453,7 @@ def gen_scenarios(seed_, n, profile):
 
 # ------------------------------------------------------------------ replay + validation
 
-def replay(work, scenarios, tag="p"):
+def replay(work, scenarios, tag="p", runloop=False):
     scp = os.path.join(work, "scenarios_%s.ndjson" % tag)
     trp = os.path.join(work, "trace_%s.ndjson" % tag)
     with open(scp, "w") as fh:
@@ -465,7 +465,8 @@ def replay(work, scenarios, tag="p"):
                     st["ev"] = "Loopback?"
             fh.write(json.dumps({"id": i + 1, "bodies": s["bodies"], "steps": s["steps"]}) + "\n")
     rc, out, wall = vlib.go_test(work, "node", PKG, "TestVerifProcessorReplay", INJECT,
-                                 env={"VERIF_SCENARIOS": scp, "VERIF_TRACE": trp, "VERIF_SEED": vlib.seed()}, timeout=1200)
+                                 env={"VERIF_SCENARIOS": scp, "VERIF_TRACE": trp, "VERIF_SEED": vlib.seed(),
+                                      "VERIF_RUNLOOP": "1" if runloop else ""}, timeout=1200)
     if "VERIF-REPLAYED" not in out:
         raise vlib.Broken("processor harness did not complete (rc=%d):\n%s" % (rc, out[-4000:]))
     return vlib.read_ndjson(trp), wall
@@ -506,6 +507,9 @@ def diff_components(rej, line):
     lgs = s.get("gs", [])
     if norm(spec.get("gs")) != norm(lgs[0] if lgs else "Nil"):
         comps.add("gs")
+    lgst = s.get("gst", lgs)
+    if norm(spec.get("gs")) != norm(lgst[0] if lgst else "Nil"):
+        comps.add("gst")  # the set published to the gossip verifiers differs from the processor's
     sagg, lagg = spec.get("agg", {}) or {}, s.get("agg", {}) or {}
     if isinstance(sagg, list):
         sagg = {}
@@ -573,8 +577,10 @@ def attribute(rej, line):
     # C01 speaks about what is stored / broadcast and about the state those decisions are made from:
     # the guardian-set snapshot, the node's own VAA, the recorded signers, the current set; and about
     # every step of the inbound-VAA path.
-    if ev == "InboundVAA" or comps & {"db", "out-vaa", "agg-snap", "agg-our", "agg-sigs", "gs"}:
+    if ev == "InboundVAA" or comps & {"db", "out-vaa", "agg-snap", "agg-our", "agg-sigs", "gs", "gst"}:
         props.add("C01")
+    if "gst" in comps:
+        props.add("C03")  # heartbeats / requests are verified against that published set
     # C02 speaks about when and what the node publishes and signs.
     if ev not in ("CleanupTick", "Advance", "InboundVAA") and not invalid_obs:
         props.add("C02")
